@@ -25,7 +25,7 @@ class Case:
         self.faults = []
 
 
-def build_consistent(r, case, depth=3, nfiles=None, allow_multi=True, dups=True):
+def build_consistent(r, case, depth=3, nfiles=None, allow_multi=True, dups=True, double_refs=0.0):
     """directories, files, and a consistent Manifest hierarchy"""
     t = Tree()
     dirs = ['']
@@ -146,7 +146,7 @@ def build_consistent(r, case, depth=3, nfiles=None, allow_multi=True, dups=True)
             hs1 = r.sample(GOOD_HASHES, r.randint(0, 2))
             manifests[g][1].append(ET.entry_line('MANIFEST', rel, data, hs1))
             # now and then a second reference to the same sub-Manifest: the same line again, or from the top-level Manifest
-            if dups and r.random() < 0.1:
+            if (dups and r.random() < 0.1) or (double_refs and r.random() < double_refs):
                 g2 = r.choice([g, ''])
                 rel2 = os.path.relpath(p, g2) if g2 else p
                 manifests[g2][1].append(ET.entry_line('MANIFEST', rel2, data, r.sample(GOOD_HASHES, r.randint(0, 2))))
